@@ -86,6 +86,13 @@ Definition floor_of (rec : option bytes) : N :=
   match rec with None => 0 | Some v => from_be (firstn 8 v) end.
 
 (* operations of a C08 history *)
+(* the engine calls of one Compact call that touch the compaction record *)
+Inductive cphase :=
+| PhSetGet        (* setCompactRecord: Get *)
+| PhSetCommit     (* setCompactRecord: Commit of the CAS / put-if-absent *)
+| PhRaceGet       (* checkCompactRace(compact=true): Get *)
+| PhRacePut.      (* checkCompactRace(compact=true): Commit of the Put *)
+
 Inductive cop :=
 | CWrite (n : N)                         (* n acknowledged write requests (each allocates one revision) *)
 | CUncertain                             (* one write whose commit outcome is unknown: enters the retry queue *)
@@ -96,7 +103,10 @@ Inductive cop :=
 | CCount                                 (* Backend.Count (etcd compatibility on): always at the committed revision *)
 | CScanCount (rev : N)                   (* scanner.Count at an explicit revision *)
 | CStream (rev : N)                      (* Backend.ListByStream over the whole range *)
-| CStreamPart (rev : N).                 (* Backend.ListByStream once per advertised partition *)
+| CStreamPart (rev : N)                  (* Backend.ListByStream once per advertised partition *)
+(* overlapping compactions: each Compact call runs on its own thread and is advanced one engine call at a time *)
+| CSpawn (i : N) (r : N) (nranges : nat) (* thread i enters Backend.Compact(r): clamp, then parks before its first engine call *)
+| CThread (i : N) (ph : cphase).         (* thread i performs the engine call it is parked at (observed: which one) *)
 
 Inductive cobs :=
 | OWrite
@@ -118,10 +128,87 @@ Definition cstep (s : cstate) (op : cop) : cstate * cobs :=
   | CScanCount rev => (s, ORead (race_read (c_rec s) rev))
   | CStream rev => (s, ORead (race_read (c_rec s) (eff_rev (c_cur s) rev)))
   | CStreamPart rev => (s, ORead (race_read (c_rec s) (eff_rev (c_cur s) rev)))
+  | CSpawn _ _ _ | CThread _ _ => (s, OWrite)      (* thread labels: see xstep below *)
   end.
 
 Fixpoint crun (s : cstate) (ops : list cop) : cstate :=
   match ops with [] => s | op :: t => crun (fst (cstep s op)) t end.
+
+(* ---------- overlapping compactions: one engine call per step ---------- *)
+
+(* where a compaction thread is parked: before ... *)
+Inductive tstate :=
+| TSetGet (rv : N) (n : nat)                          (* ... setCompactRecord's Get *)
+| TSetCommit (val : option bytes) (rv : N) (n : nat)  (* ... the commit of its batch, built against the value read *)
+| TRaceGet (rv : N) (k : nat)                         (* ... checkCompactRace's Get, k ranges to go (k >= 1) *)
+| TRacePut (rv : N) (k : nat).                        (* ... the commit of its unconditional Put *)
+
+Definition tphase (t : tstate) : cphase :=
+  match t with TSetGet _ _ => PhSetGet | TSetCommit _ _ _ => PhSetCommit | TRaceGet _ _ => PhRaceGet | TRacePut _ _ => PhRacePut end.
+
+Definition trev (t : tstate) : N :=
+  match t with TSetGet rv _ | TSetCommit _ rv _ | TRaceGet rv _ | TRacePut rv _ => rv end.
+
+Inductive tnext := TGo (t : tstate) | TEnd (res : cres).
+
+(* after setCompactRecord: the scans, or the end when there is no range *)
+Definition after_set (rv : N) (n : nat) : tnext := match n with O => TEnd COk | S _ => TGo (TRaceGet rv n) end.
+Definition after_range (rv : N) (k : nat) : tnext := match k with S (S k') => TGo (TRaceGet rv (S k')) | _ => TEnd COk end.
+
+(* the parked engine call is performed on the record as it is NOW *)
+Definition tstep (rec : option bytes) (t : tstate) : option bytes * tnext :=
+  match t with
+  | TSetGet rv n =>
+      match rec with
+      | Some (x :: v') =>
+          match u64_of (x :: v') with
+          | None => (rec, TEnd CPanic)
+          | Some c => if rv <? c then (rec, after_set rv n) else (rec, TGo (TSetCommit rec rv n))
+          end
+      | _ => (rec, TGo (TSetCommit rec rv n))
+      end
+  | TSetCommit val rv n =>
+      let ok := match val with
+                | Some (x :: v') => opt_eqb beqb rec val      (* CAS against the value read *)
+                | _ => match rec with None => true | Some _ => false end   (* put-if-absent *)
+                end in
+      if ok then (Some (be64 rv), after_set rv n) else (rec, TEnd CErr)
+  | TRaceGet rv k =>
+      match rec with
+      | Some v => if Nat.eqb (length v) 8 && (rv <? from_be v) then (rec, after_range rv k) else (rec, TGo (TRacePut rv k))
+      | None => (rec, TGo (TRacePut rv k))
+      end
+  | TRacePut rv k => (Some (be64 rv), after_range rv k)
+  end.
+
+Record xstate := mkX { x_c : cstate; x_thr : list (N * tstate) }.
+
+Definition find_thr (i : N) (l : list (N * tstate)) : option tstate :=
+  match find (fun p => fst p =? i) l with Some p => Some (snd p) | None => None end.
+Definition drop_thr (i : N) (l : list (N * tstate)) := filter (fun p => negb (fst p =? i)) l.
+
+Definition xstep (s : xstate) (op : cop) : xstate * cobs :=
+  match op with
+  | CSpawn i r n =>
+      let c := x_c s in
+      (mkX c (drop_thr i (x_thr s) ++ [(i, TSetGet (clamp (c_cur c) (c_retry c) r) n)]), OWrite)
+  | CThread i ph =>
+      match find_thr i (x_thr s) with
+      | Some t =>
+          let c := x_c s in
+          let '(rec', nx) := tstep (c_rec c) t in
+          let c' := mkC (c_cur c) (c_retry c) rec' in
+          match nx with
+          | TGo t' => (mkX c' (drop_thr i (x_thr s) ++ [(i, t')]), OWrite)
+          | TEnd res => (mkX c' (drop_thr i (x_thr s)), OCompact (trev t) res)
+          end
+      | None => (s, OWrite)
+      end
+  | _ => let '(c', o) := cstep (x_c s) op in (mkX c' (x_thr s), o)
+  end.
+
+Fixpoint xrun (s : xstate) (ops : list cop) : xstate :=
+  match ops with [] => s | op :: t => xrun (fst (xstep s op)) t end.
 
 (* ================================================================================================ *)
 (* Part 2 — decoded records and stores                                                               *)
